@@ -1103,6 +1103,9 @@ Proof.
               | apply f_sum_agr; [assumption | intros k' E; inversion E; subst; assumption]
               | apply f_slice_agr; solve [assumption | reflexivity]
               | apply f_split_agr; assumption ].
+  (* uniq with an argument: nil / undefined mean no key *)
+  all: try (match goal with |- agr _ (match ?v with _ => _ end) _ => destruct v end;
+            first [apply agr_pyexc | apply f_uniq_agr; assumption]).
   (* upcase downcase append prepend escape plus minus times reverse *)
   all: try (eapply agr_bind; [apply tls_agr; assumption|]; intros s0 _).
   all: try (eapply agr_bind; [first [apply ascii_upper_agr | apply ascii_lower_agr
